@@ -213,10 +213,21 @@ def run_cli(r: Runner, scn: dict):
             pays.append((uri, data))
             want.append([it.id(uri), it.id(data)])
             uris.append(uri)
-        envb = c11_extract.make_env(ctx, d, ctx.rng, 7000 + r.tid, pays, [])
+        deps = []
+        for j, (dname, dinputs) in enumerate(scn.get("deps", [])):
+            dp = []
+            for uri, dl, sd in dinputs:
+                data = bytes(((sd * 11 + i * 17) % 251 + 1) & 0xFF for i in range(dl))
+                dp.append((uri, data))
+                want.append([it.id(uri), it.id(data)])
+                uris.append(uri)
+            deps.append((dname, c11_extract.make_env(ctx, d, ctx.rng, 7100 + 10 * r.tid + j, dp, [])))
+        envb = c11_extract.make_env(ctx, d, ctx.rng, 7000 + r.tid, pays, deps)
         (d / "in.suit").write_bytes(envb)
         args = ["cache_create", "from_envelope", "--output-file", out, "--eb-size", scn["eb"], "--input-envelope", d / "in.suit",
                 "--output-envelope", d / "out.suit"]
+        if deps:
+            args += ["--dependency-regex", "dep_.*"]
     elif scn["sub"] == "from_payloads":
         args = ["cache_create", "from_payloads", "--output-file", out, "--eb-size", scn["eb"]]
         for n, (uri, dl, sd) in enumerate(scn["inputs"]):
@@ -317,7 +328,10 @@ def gen_cli(ctx: core.Check):
     for k in range(n):
         eb = rng.choice([1, 4, 8, 16, 64, 100])
         names = list(dict.fromkeys(rng.choice(["#app", "#rad", "cache://x", "a", "b" * 24, "#sys"]) for _ in range(rng.randint(1, 4))))
-        scns.append({"kind": "cli", "sub": "from_envelope", "eb": eb,
+        # 0..3 ADJACENT dependency envelopes selected by --dependency-regex, each with its own payloads (distinct URIs)
+        deps = [[f"dep_{j}.suit", [[f"#d{j}_{i}", rng.choice([0, 1, 7, 16, 300]), rng.randrange(50)] for i in range(rng.randint(1, 2))]]
+                for j in range(k % 4)]
+        scns.append({"kind": "cli", "sub": "from_envelope", "eb": eb, "deps": deps,
                      "inputs": [[nm, rng.choice([0, 1, 7, 16, 300]), rng.randrange(50)] for nm in names]})
     for k in range(n):
         eb = rng.choice([1, 4, 8, 16, 64])
